@@ -265,7 +265,6 @@ func (vc *VC) callWrites(x *ssa.Call, wk *writeSet, depth int, visiting map[*ssa
 		}
 	}
 	wk.all = true
-	wk.logs = true
 }
 
 // contractWrites adds the keys named by a contract's modifies clause (type level).
@@ -907,7 +906,7 @@ func (f *frame) opaqueCall(x *ssa.Call, what string, cur *State) {
 	if !f.specMode {
 		f.frameCheckCall(cur, what, &modSet{all: true}, x.Pos())
 	}
-	vc.havocKeys(cur, &writeSet{all: true, logs: true})
+	vc.havocKeys(cur, &writeSet{all: true})
 	cur.nonnil = map[Term]bool{}
 	f.setResult(x, cur)
 	f.raisePoint(cur, nil, nil, what, x.Pos())
@@ -1082,7 +1081,7 @@ func (f *frame) applyContract(ct *Contract, calleeName string, params []paramInf
 	if len(params) > 0 && !f.specMode {
 		if _, _, ok := isPtrToStruct(params[0].typ); ok && (ct.KeyKind == "func" || ct.KeyKind == "trusted") && strings.HasPrefix(ct.Key, "(") || strings.HasPrefix(ct.Key, "pm.(") {
 			if r, isRef := args[0].(sv); isRef && !cur.nonnil[r.t] {
-				vc.withTags(ct.Tags, func() {
+				vc.withTags(vc.ct.Tags, func() {
 					vc.oblige(cur, "PRE", label+"/recv-nonnil", fmt.Sprintf("(not (= %s 0))", r.t), f.where(pos), "receiver of "+short+" is non-nil")
 				})
 				cur.nonnil[r.t] = true
@@ -1096,11 +1095,8 @@ func (f *frame) applyContract(ct *Contract, calleeName string, params []paramInf
 				vc.errs = append(vc.errs, fmt.Sprintf("%s: %v", rq.Line, err))
 				continue
 			}
-			tags := rq.Tags
-			if len(tags) == 0 {
-				tags = ct.Tags
-			}
-			vc.withTags(mergeTags(tags, vc.ct.Tags), func() {
+			// a precondition at a call site is an obligation of the CALLER: it carries the caller's property tags
+			vc.withTags(vc.ct.Tags, func() {
 				vc.oblige(cur, "PRE", fmt.Sprintf("%s/%d", label, i+1), t, f.where(pos), "requires "+rq.E.String())
 			})
 		}
@@ -1214,15 +1210,18 @@ func (f *frame) applyContract(ct *Contract, calleeName string, params []paramInf
 			}
 		}
 		f.logCall(cur, ct, params, args, rtv)
-	} else if ms.all {
-		// an unlogged callee that may do anything may also run logged functions
-		vc.havocLog(cur)
 	}
+	// The ghost call log is per activation: it records the logged calls made DIRECTLY by the function under
+	// verification. A callee's own calls are not part of it, so nothing else happens to the log here and the callee's
+	// clauses about its own log are not assumed below.
 	post := vc.newScope(cur, pre)
 	post.vars = sc.vars
 	post.results = rtv
 	post.resultNames = resultNames(results)
 	for _, en := range ct.Ensures {
+		if mentionsLog(en.E) {
+			continue
+		}
 		t, err := post.evalBool(en.E)
 		if err != nil {
 			vc.errs = append(vc.errs, fmt.Sprintf("%s: %v", en.Line, err))
@@ -1231,6 +1230,25 @@ func (f *frame) applyContract(ct *Contract, calleeName string, params []paramInf
 		vc.assume(cur, t)
 	}
 	return res
+}
+
+// mentionsLog reports whether a spec expression refers to the ghost call log.
+func mentionsLog(e *Expr) bool {
+	if e == nil {
+		return false
+	}
+	if e.Op == "call" {
+		switch {
+		case e.Name == "ncalls", e.Name == "callfn", strings.HasPrefix(e.Name, "callarg"), strings.HasPrefix(e.Name, "callres"):
+			return true
+		}
+	}
+	for _, a := range e.Args {
+		if mentionsLog(a) {
+			return true
+		}
+	}
+	return false
 }
 
 // logCall appends (callee, scalar arguments, scalar results) to the ghost call log.
